@@ -118,6 +118,14 @@ func (s *c07Store) exec(c *c07Conn, cmd string, rawArgs []interface{}) (interfac
 	}
 
 	db := c.db
+	if cmd == "eval" && len(args) == 8 {
+		// (driver adaptation) the collector's conditional delete : EVAL script 1 key offsetField
+		// seenOffset f3 f4 f5 - HDEL only while HGET key offsetField still equals seenOffset
+		if h := s.hashes[db][args[2]]; h == nil || h.vals[args[3]] != args[4] {
+			return int64(0), nil
+		}
+		cmd, args = "hdel", []string{args[2], args[3], args[5], args[6], args[7]}
+	}
 	switch cmd {
 	case "select":
 		n, err := strconv.Atoi(args[0])
